@@ -26,6 +26,7 @@ from typing import Tuple
 from .consteval import ExtRef
 from .consteval import Folder
 from .consteval import NotConst
+from .consteval import RegexConst
 from .consteval import Scope
 from .loader import AnalysisError
 from .loader import FuncInfo
@@ -147,6 +148,25 @@ class Explorer:
                 return base.peval_getattr(e.attr)
             if isinstance(base, slice) and e.attr in ("start", "stop", "step"):
                 return getattr(base, e.attr)
+        if isinstance(e, ast.Subscript) and isinstance(e.ctx, ast.Load) and self.enter_with and not (
+                isinstance(e.value, ast.Name) and isinstance(env.get(e.value.id), dict)):
+            # indexing / slicing a text or sequence the path knows
+            base_ = self.value(e.value, env)
+            if isinstance(base_, (str, tuple, list)) and not isinstance(base_, Text):
+                if isinstance(e.slice, ast.Slice):
+                    b3 = [self.value(x, env) if x is not None else None for x in (e.slice.lower, e.slice.upper, e.slice.step)]
+                    if all(x is None or (isinstance(x, int) and not isinstance(x, bool)) for x in b3):
+                        try:
+                            return base_[slice(*b3)]
+                        except ValueError:
+                            return UNKNOWN
+                else:
+                    k_ = self.value(e.slice, env)
+                    if isinstance(k_, int) and not isinstance(k_, bool):
+                        try:
+                            return base_[k_]
+                        except IndexError as err:
+                            raise _PathRaises("IndexError") from err
         if isinstance(e, ast.Subscript) and isinstance(e.ctx, ast.Load) and isinstance(e.value, ast.Name) and isinstance(env.get(e.value.id), dict):
             k = self.value(e.slice, env)
             if isinstance(k, (str, int)) and not isinstance(k, (bool, Text)):
@@ -159,6 +179,19 @@ class Explorer:
             a0 = self.value(e.args[0], env)
             if isinstance(a0, AbstractObject):
                 return a0.peval_str()
+        if isinstance(e, ast.BoolOp) and self.enter_with:
+            # the value of `a or b` / `a and b` (not only its truth) when the operands' truth is known
+            cur: Any = None
+            for i_, operand in enumerate(e.values):
+                cur = self.value(operand, env)
+                last = i_ == len(e.values) - 1
+                if last:
+                    return cur
+                if cur is UNKNOWN or isinstance(cur, (Text, AbstractObject)) or not isinstance(cur, _PLAIN):
+                    break
+                truth = bool(cur)
+                if truth == isinstance(e.op, ast.Or):
+                    return cur
         if isinstance(e, (ast.Compare, ast.BoolOp)) or (isinstance(e, ast.UnaryOp) and isinstance(e.op, ast.Not)) or (
             isinstance(e, ast.Call) and isinstance(e.func, ast.Name) and e.func.id == "isinstance"
         ):
@@ -259,10 +292,18 @@ class Explorer:
                         raise _PathRaises(type(err).__name__) from None
                     except (TypeError, ValueError) as err:
                         raise _PathRaises(type(err).__name__) from err
-            if isinstance(e.func, ast.Attribute) and not e.keywords and isinstance(e.func.value, (ast.Name, ast.Attribute, ast.Subscript)):
+            if isinstance(e.func, ast.Attribute) and not e.keywords and isinstance(e.func.value, (ast.Name, ast.Attribute, ast.Subscript, ast.Constant)):
                 # a pure method of a plain value the path knows (a table looked up with a known key)
                 recv = self.value(e.func.value, env)
                 plain = all(isinstance(a, (str, int, float, bool, type(None), tuple)) and not isinstance(a, Text) for a in args)
+                if isinstance(recv, RegexConst) and e.func.attr in ("fullmatch", "match", "search") and len(args) == 1 and isinstance(args[0], str) and not isinstance(args[0], Text):
+                    # a module-level compiled pattern (folded) applied to a text the path knows: stdlib `re` decides
+                    import re as _re
+
+                    try:
+                        return getattr(_re.compile(recv.pattern, recv.flags), e.func.attr)(args[0])
+                    except _re.error:
+                        return UNKNOWN
                 if isinstance(recv, dict) and e.func.attr in ("items", "keys", "values") and not args:
                     return list(getattr(recv, e.func.attr)())
                 if isinstance(recv, slice) and e.func.attr == "indices" and len(args) == 1 and isinstance(args[0], int):
@@ -277,6 +318,9 @@ class Explorer:
                         return recv.get(*args)
                     except TypeError:
                         return UNKNOWN
+                if (isinstance(recv, str) and not isinstance(recv, Text) and e.func.attr == "join" and len(args) == 1 and isinstance(args[0], (list, tuple))
+                        and all(isinstance(x, str) and not isinstance(x, Text) for x in args[0])):
+                    return recv.join(args[0])
                 if isinstance(recv, str) and not isinstance(recv, Text) and plain and e.func.attr in (
                         "startswith", "endswith", "strip", "lstrip", "rstrip", "lower", "upper", "replace", "split", "isdigit"):
                     try:
@@ -432,6 +476,8 @@ class Explorer:
         v = self.value(t, env)
         if v is UNKNOWN or isinstance(v, Text):
             return None
+        if type(v).__name__ == "Match" and type(v).__module__ == "re":
+            return True
         if v is not None and not isinstance(v, (bool, int, float, str, bytes, tuple, list, dict, set, frozenset)):
             return None
         try:
